@@ -283,6 +283,9 @@ func main() {
 	writeList(&sb, "runGate", "", gate, true)
 	nfacts += len(gate)
 
+	// ---- the block path behind `block` / `cmpctblock` / `blocktxn` for a block that carries the Trusted mark (state.go)
+	nfacts += blockFront(&sb)
+
 	// ---- the message size table
 	mm := instantiate(sizeSf)
 	msw := mm.fd.Body.List[0].(*ast.SwitchStmt)
@@ -340,6 +343,8 @@ func main() {
 	}
 	sort.SliceStable(traces, func(i, j int) bool { return traces[i].fn < traces[j].fn })
 	nfacts += writeLockTraces(&sb, traces)
+	// ---- the connection's map-typed fields: who assigns what, who writes entries (state.go)
+	nfacts += connMaps(&sb)
 	sb.WriteString("end GocoinV.Gen.NetFacts\n")
 	out := vlib.Root() + "/lean/GocoinV/Gen/NetFacts.lean"
 	if o := os.Getenv("GEN_C18_OUT"); o != "" {
